@@ -519,6 +519,7 @@ func (i *indexImpl) DropFileWriterIDs(ids map[string]struct{}) error {
 		var err error
 		err = i.meta.UpdateWriter(i.path)
 		if err != nil {
+			i.mutex.Unlock()
 			return err
 		}
 	}
